@@ -486,7 +486,23 @@ class CausalInference(object):
         [1] Perkovic, Emilija, et al. "Complete graphical characterization and construction of adjustment sets in Markov equivalence classes of ancestral graphs." The Journal of Machine Learning Research 18.1 (2017): 8132-8193.
         """
         backdoor_graph = self.get_proper_backdoor_graph([X], [Y], inplace=False)
-        return backdoor_graph.minimal_dseparator(X, Y)
+        adjustment_set = backdoor_graph.minimal_dseparator(X, Y)
+        # A descendant of X (e.g. a mediator that is a parent of Y) can separate X
+        # and Y in the proper backdoor graph but is not allowed in an adjustment set.
+        forbidden = nx.descendants(self.model, X)
+        if adjustment_set is not None and adjustment_set & forbidden:
+            candidates = (
+                nx.ancestors(self.model, X) | nx.ancestors(self.model, Y)
+            ) - forbidden - {X, Y} - set(self.model.latents)
+            if backdoor_graph.is_dconnected(X, Y, observed=candidates):
+                return None
+            adjustment_set = set(candidates)
+            for node in candidates:
+                if not backdoor_graph.is_dconnected(
+                    X, Y, observed=adjustment_set - {node}
+                ):
+                    adjustment_set.remove(node)
+        return adjustment_set
 
     def query(
         self,
